@@ -110,7 +110,7 @@ def run(tier, seed):
         imod = ctx.inlined("stream")
         rep.analysed = {"view": "inlined unit lib/lha_input_stream.c + plain view for src/main.c", "functions": len(imod.defined())}
         fn = imod.fn("lha_input_stream_read")
-        rid = rep.rule("R1", "scan window: position i is examined only while i + K < leadin_len, K >= the largest offset read at a position", 2)
+        rid = rep.rule("R1", "scan window: position i is examined only while i + K < leadin_len, K >= the largest offset read at a position; marker strings are compared in full", 4)
         rep.need(rid, fn, "function lha_input_stream_read")
         scan = None
         if fn:
@@ -167,6 +167,18 @@ def run(tier, seed):
                             continue
                         if c + n - 1 > maxk:
                             maxk, worst = c + n - 1, ins
+            # every comparison with a marker string covers the whole marker (a shorter length makes look-alike text count as a marker)
+            for b in lp["body"]:
+                for ins in fn.blocks[b].insts:
+                    if ins.op == "call" and imod.callee_cname(ins) in ("memcmp", "bcmp", "strncmp") and len(ins.ops) >= 3:
+                        for a in ins.ops[:2]:
+                            lit = imod.const_string(M.strip(a, ("bitcast",)))
+                            if lit is not None:
+                                n = const_val(ins.ops[2]) if is_const(ins.ops[2]) else None
+                                full = len(lit.rstrip(b"\0")) if isinstance(lit, (bytes, bytearray)) else None
+                                rep.check(rid, n is not None and full is not None and n == full, "marker %r is compared in full (%s of %s bytes)" % (lit, n, full), ins.where(),
+                                          None if n == full else "only a prefix (or more than the string) is compared: other text is taken for this self-extractor marker, and the first real header is skipped as a decoy",
+                                          function="skip_sfx", obj="marker-len")
             rep.check(rid, nread >= 5 and maxk >= 0 and maxk <= K, "every byte examined at position i lies at most %d after it, and i + %d < leadin_len holds there (%d reads)" % (maxk, K, nread),
                       worst.where() if worst is not None else fn.file,
                       None if (maxk <= K and nread >= 5) else "offset %d is read although only i + %d < leadin_len is known: a byte beyond what the source delivered (left over from an earlier round) decides the match" % (maxk, K),
